@@ -117,7 +117,13 @@ var commonStub = []string{"goroutine choice, clock and timers (simrt scheduler)"
 
 // plans are read from /verif/plans/<ID>.json
 func loadPlan(prop string) *plan {
-	b, err := os.ReadFile(filepath.Join(verifDir, "plans", prop+".json"))
+	pdir := filepath.Join(verifDir, "plans")
+	if v := os.Getenv("MXSIM_HARNESS"); v != "" {
+		if _, err := os.Stat(filepath.Join(v, prop+".json")); err == nil {
+			pdir = v // development only: plan next to the harness under development
+		}
+	}
+	b, err := os.ReadFile(filepath.Join(pdir, prop+".json"))
 	if err != nil {
 		return nil
 	}
@@ -239,7 +245,11 @@ func prepare(race, helper bool) (worker string, instrStats string) {
 	instrStats = strings.TrimSpace(out)
 	h := filepath.Join(scratch, "h")
 	os.MkdirAll(h, 0755)
-	if out, err := run("", nil, "sh", "-c", "cp "+verifDir+"/harness/*.go "+h+"/ && cp "+tree+"/go.sum "+h+"/go.sum && cat "+verifDir+"/harness/go.sum.extra >> "+h+"/go.sum"); err != nil {
+	hsrc := verifDir + "/harness"
+	if v := os.Getenv("MXSIM_HARNESS"); v != "" {
+		hsrc = v // development only
+	}
+	if out, err := run("", nil, "sh", "-c", "cp "+hsrc+"/*.go "+h+"/ && cp "+tree+"/go.sum "+h+"/go.sum && cat "+verifDir+"/harness/go.sum.extra >> "+h+"/go.sum"); err != nil {
 		infra("copy harness: %v\n%s", err, out)
 	}
 	gomod := "module verif/h\n\ngo 1.26\n\nrequire (\n\tgithub.com/anishathalye/porcupine v1.3.0\n\tgithub.com/lmorg/murex v0.0.0\n)\n\nreplace github.com/lmorg/murex => ../tree\n"
